@@ -6,6 +6,8 @@
  *   C <obj|cfg> <tag>
  *   N <id> <h|s> <host>
  *   D <id> <child> <parent> <group|-> <filter> <ignoreSoft> <period -1|0..3> <disChecks> <disNotif>
+ *                                              <group> may be @<nodeId>: the redundancy group named exactly like that node
+ *                                              (GetName(): host name or host!service); G prints such a group as @<nodeId> again
  *   X <depid>
  *   S <node> <checked> <stateRaw> <stateType>
  *   T <period> <inside>
@@ -325,6 +327,34 @@ struct Engine {
 
 	std::string HostName(int id) const { return pfx + "h" + std::to_string(id); }
 	std::string ShortName(int id) const { return "s" + std::to_string(id); }
+	/* what GetName() of node id returns (obj and cfg mode use the same naming scheme) */
+	std::string FullName(int id) const { return nodes[id].svc ? HostName(nodes[id].host) + "!" + ShortName(id) : HostName(id); }
+
+	/* group token -> real redundancy group name; "@<id>" is the name of node <id> */
+	bool ResolveGroup(const std::string& token, std::string& real) const
+	{
+		if (token.empty() || token[0] != '@') {
+			real = token;
+			return true;
+		}
+		char *end = nullptr;
+		long id = strtol(token.c_str() + 1, &end, 10);
+		if (end == token.c_str() + 1 || *end || id < 0 || id >= (long)nodes.size())
+			return false;
+		real = FullName((int)id);
+		return true;
+	}
+
+	/* real redundancy group name -> token for the G line */
+	std::string GroupToken(const String& name) const
+	{
+		if (name.IsEmpty())
+			return "-";
+		for (size_t i = 0; i < nodes.size(); i++)
+			if (name == String(FullName((int)i)))
+				return "@" + std::to_string(i);
+		return name.GetData();
+	}
 
 	void N(int id, bool svc, int host)
 	{
@@ -396,6 +426,9 @@ struct Engine {
 			return Fail("dep-node");
 		if (period < -1 || period > 3)
 			return Fail("dep-period");
+		std::string realGroup;
+		if (!ResolveGroup(group, realGroup))
+			return Fail("dep-group");
 		Dep d;
 		d.child = child; d.parent = parent; d.group = group; d.filter = filter; d.ign = ign; d.period = period; d.dc = dc; d.dn = dn;
 		if (!cfg) {
@@ -405,7 +438,7 @@ struct Engine {
 			dep->SetName(nodes[child].obj->GetName() + "!" + pfx + "d" + std::to_string(id));
 			dep->SetParent(nodes[parent].obj);
 			dep->SetChild(nodes[child].obj);
-			dep->SetRedundancyGroup(group);
+			dep->SetRedundancyGroup(realGroup);
 			dep->SetStateFilter(filter);
 			dep->SetIgnoreSoftStates(ign != 0);
 			dep->SetPeriodRaw(period >= 0 ? String("vp" + std::to_string(period)) : String(""));
@@ -432,8 +465,8 @@ struct Engine {
 				t += "parent_host_name = \"" + HostName(p.host) + "\"; parent_service_name = \"" + ShortName(parent) + "\"; ";
 			else
 				t += "parent_host_name = \"" + HostName(parent) + "\"; ";
-			if (!group.empty())
-				t += "redundancy_group = \"" + group + "\"; ";
+			if (!realGroup.empty())
+				t += "redundancy_group = \"" + realGroup + "\"; "; /* names contain no '"' or '\\': no escaping needed, '!' is fine */
 			t += "states = " + StatesArray(filter) + "; ";
 			t += std::string("ignore_soft_states = ") + (ign ? "true" : "false") + "; ";
 			if (period >= 0)
@@ -628,6 +661,9 @@ struct Engine {
 			return bad("dep-node");
 		if (period < -1 || period > 3)
 			return bad("dep-period");
+		std::string realGroup;
+		if (!ResolveGroup(group, realGroup))
+			return bad("dep-group");
 		if (!buf.empty() || !pendN.empty() || !pendD.empty())
 			return bad("a-with-pending-batch");
 
@@ -656,8 +692,8 @@ struct Engine {
 		} else {
 			attrs->Set("parent_host_name", String(HostName(parent)));
 		}
-		if (!group.empty())
-			attrs->Set("redundancy_group", String(group));
+		if (!realGroup.empty())
+			attrs->Set("redundancy_group", String(realGroup));
 		{
 			static const char *names[] = { "OK", "Warning", "Critical", "Unknown", "Up", "Down" };
 			Array::Ptr states = new Array();
@@ -796,7 +832,7 @@ struct Engine {
 				}
 				std::sort(keys.begin(), keys.end());
 				keys.erase(std::unique(keys.begin(), keys.end()), keys.end());
-				std::string s = g->GetRedundancyGroupName().IsEmpty() ? std::string("-") : std::string(g->GetRedundancyGroupName().GetData());
+				std::string s = GroupToken(g->GetRedundancyGroupName());
 				s += "/";
 				for (size_t i = 0; i < keys.size(); i++) {
 					if (i)
@@ -924,9 +960,29 @@ static void GenAvail()
 	AllStatesLoop(0);
 }
 
+/* A redundancy-group token from the alphabet of checkable names. plainParents: parents of the other plain dependencies
+ * of the same child (a plain dependency on P next to a redundancy group named like P is the interesting collision). */
+static std::string CollidingToken(Rng& rng, int nn, int child, int parent, const std::vector<int>& plainParents)
+{
+	int k = (int)rng.below(100);
+	int id;
+	if (k < 40 && !plainParents.empty()) id = plainParents[rng.below(plainParents.size())];
+	else if (k < 60) id = parent;
+	else if (k < 75) id = child;
+	else id = (int)rng.below(nn);
+	return "@" + std::to_string(id);
+}
+
 static const int kAlpha[4][3] = { { 0, 0, 1 }, { 1, 0, 1 }, { 1, 2, 0 }, { 1, 2, 1 } };
 
-struct SmallDep { int child, parent, grp, ign; };
+struct SmallDep { int child, parent, grp, ign; }; /* grp: 0 none, 1 "g", 2+q "@q" */
+
+static std::string SmallGroup(int grp)
+{
+	if (grp == 0) return "";
+	if (grp == 1) return "g";
+	return "@" + std::to_string(grp - 2);
+}
 
 static void SmallCase(const std::vector<SmallDep>& all, const std::vector<int>& pick, Rng& rng, int samples)
 {
@@ -938,7 +994,7 @@ static void SmallCase(const std::vector<SmallDep>& all, const std::vector<int>& 
 	for (size_t i = 0; i < pick.size(); i++) {
 		const SmallDep& sd = all[pick[i]];
 		int filter = (sd.parent == 2) ? 3 : 16;
-		E.D((int)i, sd.child, sd.parent, sd.grp ? "g" : "", filter, sd.ign, -1, 1, 1);
+		E.D((int)i, sd.child, sd.parent, SmallGroup(sd.grp), filter, sd.ign, -1, 1, 1);
 	}
 	int cur[4] = { 0, 0, 0, 0 };
 	if (samples >= 256) {
@@ -967,41 +1023,100 @@ static void SmallCase(const std::vector<SmallDep>& all, const std::vector<int>& 
 
 static void GenSmall(Rng& rng, bool thorough)
 {
+	/* group alphabet per candidate pair (c, p): none, "g", and "@q" for every other candidate parent q of the same child */
 	std::vector<SmallDep> all;
 	for (int c = 1; c < 4; c++)
-		for (int p = 0; p < c; p++)
-			for (int g = 0; g < 2; g++)
+		for (int p = 0; p < c; p++) {
+			std::vector<int> grps = { 0, 1 };
+			for (int q = 0; q < c; q++)
+				if (q != p)
+					grps.push_back(2 + q);
+			for (int g : grps)
 				for (int ign = 0; ign < 2; ign++)
 					all.push_back({ c, p, g, ign });
-	int n = (int)all.size(); /* 24 */
-	int maxSize = thorough ? 4 : 3;
-	int samples[5];
-	if (thorough) { samples[1] = 256; samples[2] = 256; samples[3] = 64; samples[4] = 24; }
-	else { samples[1] = 256; samples[2] = 48; samples[3] = 20; samples[4] = 0; }
+		}
+	int n = (int)all.size(); /* 40 */
+	/* a set is "colliding" if it has a plain dependency on q and a group "@q" on the same child */
+	auto colliding = [&](const std::vector<int>& pick) {
+		for (int x : pick)
+			for (int y : pick)
+				if (all[x].grp >= 2 && all[y].grp == 0 && all[y].child == all[x].child && all[y].parent == all[x].grp - 2)
+					return true;
+		return false;
+	};
+	int s1 = 256, s2 = thorough ? 96 : 24, s3 = thorough ? 24 : 12, s4 = 16;
+	/* colliding sets are always taken, the others with probability 1/keep */
+	int keep3 = thorough ? 1 : 4, keep4 = 10;
 	std::vector<int> pick;
 	for (int a = 0; a < n; a++) {
 		pick = { a };
-		SmallCase(all, pick, rng, samples[1]);
+		SmallCase(all, pick, rng, s1);
 	}
 	for (int a = 0; a < n; a++)
 		for (int b = a + 1; b < n; b++) {
 			pick = { a, b };
-			SmallCase(all, pick, rng, samples[2]);
+			SmallCase(all, pick, rng, s2);
 		}
 	for (int a = 0; a < n; a++)
 		for (int b = a + 1; b < n; b++)
 			for (int c = b + 1; c < n; c++) {
 				pick = { a, b, c };
-				SmallCase(all, pick, rng, samples[3]);
+				if (colliding(pick) || rng.below(keep3) == 0)
+					SmallCase(all, pick, rng, s3);
 			}
-	if (maxSize >= 4)
+	if (thorough)
 		for (int a = 0; a < n; a++)
 			for (int b = a + 1; b < n; b++)
 				for (int c = b + 1; c < n; c++)
 					for (int d = c + 1; d < n; d++) {
 						pick = { a, b, c, d };
-						SmallCase(all, pick, rng, samples[4]);
+						if (rng.below(keep4) == 0 || (colliding(pick) && rng.below(3) == 0))
+							SmallCase(all, pick, rng, s4);
 					}
+}
+
+/* exhaustive: a plain dependency on P next to a redundancy group named like P with two members */
+static void GenCollide()
+{
+	static const int orders[6][3] = { { 0, 1, 2 }, { 0, 2, 1 }, { 1, 0, 2 }, { 1, 2, 0 }, { 2, 0, 1 }, { 2, 1, 0 } };
+	for (int svcVariant = 0; svcVariant < 2; svcVariant++)
+	for (int o = 0; o < 6; o++)
+	for (int x = 0; x < 3; x++) {
+		E.C(false, "collide");
+		int P, A, B, child, pDown, pFilter;
+		if (!svcVariant) {
+			E.N(0, false, -1); E.N(1, false, -1); E.N(2, false, -1); E.N(3, false, -1);
+			P = 0; A = 1; B = 2; child = 3; pFilter = 16;
+		} else {
+			/* P is the service n1 of host n0, the child is the service n5 of host n4 */
+			E.N(0, false, -1); E.N(1, true, 0); E.N(2, false, -1); E.N(3, false, -1); E.N(4, false, -1); E.N(5, true, 4);
+			P = 1; A = 2; B = 3; child = 5; pFilter = 3;
+		}
+		pDown = 2;
+		std::string grp = "@" + std::to_string(P);
+		for (int k = 0; k < 3; k++) {
+			int d = orders[o][k];
+			if (d == 0) E.D(0, child, P, "", pFilter, 0, -1, 1, 1);
+			else if (d == 1) E.D(1, child, A, grp, 16, 0, -1, 1, 1);
+			else E.D(2, child, B, grp, 16, 0, -1, 1, 1);
+		}
+		int nodesOf[3] = { P, A, B };
+		for (int round = 0; round < 2; round++) {
+			if (round == 1)
+				E.X(x);
+			for (int code = 0; code < 8; code++) {
+				for (int k = 0; k < 3; k++) {
+					int down = (code >> k) & 1;
+					int prev = code ? ((code - 1) >> k) & 1 : -1;
+					if (round == 0 && code == 0) prev = -1;
+					if (round == 1 && code == 0) prev = 1; /* the first round ended with everything down */
+					if (down != prev)
+						E.S(nodesOf[k], 1, down ? pDown : 0, 1);
+				}
+				E.Q();
+			}
+		}
+	}
 }
 
 static void GenRandCase(Rng& rng)
@@ -1028,6 +1143,7 @@ static void GenRandCase(Rng& rng)
 			std::swap(rank[i], rank[hostOf[i]]);
 
 	static const char *groups[] = { "", "g1", "g2" };
+	std::vector<std::vector<int>> plainOf(nn); /* parents of the plain dependencies per child */
 	std::vector<int> idPool;
 	for (int i = 0; i < 40; i++) idPool.push_back(i);
 	for (int i = 39; i > 0; i--) std::swap(idPool[i], idPool[rng.below(i + 1)]);
@@ -1058,7 +1174,12 @@ static void GenRandCase(Rng& rng)
 		int dc = rng.below(100) < 70 ? 1 : 0;
 		int dn = rng.below(100) < 70 ? 1 : 0;
 		int id = idPool[nextId++];
-		E.D(id, c, p, groups[rng.below(3)], filter, (int)rng.below(2), period, dc, dn);
+		std::string grp = groups[rng.below(3)];
+		if (!grp.empty() && rng.below(3) == 0)
+			grp = CollidingToken(rng, nn, c, p, plainOf[c]);
+		if (grp.empty())
+			plainOf[c].push_back(p);
+		E.D(id, c, p, grp, filter, (int)rng.below(2), period, dc, dn);
 		live.push_back(id);
 	};
 
@@ -1191,11 +1312,20 @@ struct CfgGen {
 
 	void PrintN(int id) { printf("N %d %c %d\n", id, isSvc[id] ? 's' : 'h', isSvc[id] ? hostOf[id] : -1); }
 
+	std::vector<std::vector<int>> plainOf; /* parents of the plain dependencies per child (cleared per case) */
+
 	void PrintD(int c, int p)
 	{
 		static const char *groups[] = { "-", "-", "g1", "g2" };
 		int period = rng.below(100) < 30 ? (int)rng.below(4) : -1;
-		printf("D %d %d %d %s %d %d %d %d %d\n", nextDep++, c, p, groups[rng.below(4)], ValidFilter(p), (int)rng.below(2), period,
+		std::string grp = groups[rng.below(4)];
+		if ((int)plainOf.size() < (int)isSvc.size())
+			plainOf.resize(isSvc.size());
+		if (grp != "-" && rng.below(3) == 0)
+			grp = CollidingToken(rng, (int)isSvc.size(), c, p, plainOf[c]);
+		if (grp == "-")
+			plainOf[c].push_back(p);
+		printf("D %d %d %d %s %d %d %d %d %d\n", nextDep++, c, p, grp.c_str(), ValidFilter(p), (int)rng.below(2), period,
 			rng.below(100) < 70 ? 1 : 0, rng.below(100) < 70 ? 1 : 0);
 	}
 
@@ -1223,7 +1353,7 @@ struct CfgGen {
 
 	void Case(int idx)
 	{
-		isSvc.clear(); hostOf.clear(); nextDep = 0;
+		isSvc.clear(); hostOf.clear(); nextDep = 0; plainOf.clear();
 		bool cyclic = rng.below(2) == 0;
 		int kind = (int)rng.below(5);
 		bool twoBatches = rng.below(2) == 0;
@@ -1422,6 +1552,13 @@ struct RtGen {
 		d.id = nextDep++;
 		d.c = c; d.p = p;
 		d.grp = rng.below(2) ? "g1" : "";
+		if (!d.grp.empty() && rng.below(3) == 0) {
+			std::vector<int> plain;
+			for (const GDep& o : deps)
+				if (o.c == c && o.grp.empty())
+					plain.push_back(o.p);
+			d.grp = CollidingToken(rng, nn, c, p, plain);
+		}
 		d.filter = DefFilter(p);
 		d.ign = rng.below(100) < 25 ? 1 : 0;
 		d.period = rng.below(100) < 20 ? 0 : -1;
@@ -1671,6 +1808,52 @@ static void GenRtHand()
 		"D 1 2 1 - 16 0 -1 1 1\nD 2 0 2 - 16 0 -1 1 1\nL\nG\nQ -\nD 3 2 1 - 16 0 -1 1 1\nL\nG\nQ -\nA 4 0 2 - 16 0 -1 1 1\nG\nQ -\n");
 }
 
+/* gencfg rt part: a plain dependency on P next to a redundancy group named like P (two members), three ways of adding */
+static void GenRtCollideHand()
+{
+	for (int svcVariant = 0; svcVariant < 2; svcVariant++)
+	for (int how = 0; how < 3; how++) {
+		int P, A, B, child, pFilter;
+		printf("C cfg rt-collide-%s%d\n", svcVariant ? "s" : "h", how);
+		if (!svcVariant) {
+			printf("N 0 h -1\nN 1 h -1\nN 2 h -1\nN 3 h -1\n");
+			P = 0; A = 1; B = 2; child = 3; pFilter = 16;
+		} else {
+			printf("N 0 h -1\nN 1 s 0\nN 2 h -1\nN 3 h -1\nN 4 h -1\nN 5 s 4\n");
+			P = 1; A = 2; B = 3; child = 5; pFilter = 3;
+		}
+		char plain[96], m1[96], m2[96];
+		snprintf(plain, sizeof plain, "%%c 0 %d %d - %d 0 -1 1 1\n", child, P, pFilter);
+		snprintf(m1, sizeof m1, "%%c 1 %d %d @%d 16 0 -1 1 1\n", child, A, P);
+		snprintf(m2, sizeof m2, "%%c 2 %d %d @%d 16 0 -1 1 1\n", child, B, P);
+		bool apiPlain = false, apiMembers = false;
+		if (how == 0) {          /* all three in the first L */
+			printf(plain, 'D'); printf(m1, 'D'); printf(m2, 'D'); printf("L\nG\nQ -\n");
+		} else if (how == 1) {   /* plain first, the group members at runtime */
+			printf(plain, 'D'); printf("L\nG\nQ -\n");
+			printf(m1, 'A'); printf("G\nQ -\n"); printf(m2, 'A'); printf("G\nQ -\n");
+			apiMembers = true;
+		} else {                 /* the group first, the plain dependency at runtime */
+			printf(m1, 'D'); printf(m2, 'D'); printf("L\nG\nQ -\n");
+			printf(plain, 'A'); printf("G\nQ -\n");
+			apiPlain = true;
+		}
+		int nodesOf[3] = { P, A, B };
+		int removed = (how + svcVariant) % 3; /* which of the three goes away in the second round */
+		for (int round = 0; round < 2; round++) {
+			if (round == 1) {
+				bool api = removed == 0 ? apiPlain : apiMembers;
+				printf("%c %d\nG\n", api ? 'R' : 'X', removed);
+			}
+			for (int code = 0; code < 8; code++) {
+				for (int k = 0; k < 3; k++)
+					printf("S %d 1 %d 1\n", nodesOf[k], ((code >> k) & 1) ? 2 : 0);
+				printf("Q -\n");
+			}
+		}
+	}
+}
+
 /* ------------------------------------------------------------------------------------------------
  * ops */
 
@@ -1794,6 +1977,7 @@ int main(int argc, char **argv)
 			g.Case(i);
 		/* appended later: everything above stays byte-identical for a given seed */
 		GenRtHand();
+		GenRtCollideHand();
 		Rng rng2(seed ^ 0x7c07a11ceULL);
 		RtGen rt(rng2);
 		int nrt = thorough ? 2500 : 300;
@@ -1822,6 +2006,7 @@ int main(int argc, char **argv)
 		GenAvail();
 		GenCycle();
 		GenChain();
+		GenCollide();
 		GenSmall(rng, thorough);
 		int n = thorough ? 20000 : 2000;
 		for (int i = 0; i < n; i++)
